@@ -272,5 +272,10 @@ func (c *Ctx) TempDir() string {
 		panic(err)
 	}
 	c.tmpDirs = append(c.tmpDirs, d)
-	return d
+	// nested, so that lexical path traversal by a short key stays inside d
+	n := d + "/a/b/c"
+	if err := os.MkdirAll(n, 0700); err != nil {
+		panic(err)
+	}
+	return n
 }
